@@ -12,6 +12,7 @@
 (* value, arrays) x official -> intermediary renames x named mappings      *)
 (* naming the bridge in Sub, only in Base (through inheritance), only in    *)
 (* Top two levels up with Base absent from the named mappings, nowhere;    *)
+(* only in Base while Sub lists it without a target name (shadow);          *)
 (* with / without an existing entry (comment, parameter) for the delegate; *)
 (* with / without the class.                                               *)
 (***************************************************************************)
@@ -70,7 +71,7 @@ NSN == <<"intermediary", "named">>
 Off(s) == s   \* official names are the names used above
 PickMaps ==
     /\ phase = "jar"
-    /\ \E ren \in BOOLEAN, where \in {"sub", "base", "top", "nowhere"}, existing \in {"none", "plain", "rich"}, hasclass \in BOOLEAN :
+    /\ \E ren \in BOOLEAN, where \in {"sub", "base", "top", "nowhere", "shadow"}, existing \in {"none", "plain", "rich"}, hasclass \in BOOLEAN :
         LET iSub == IF ren THEN "isub" ELSE "Sub"
             iBase == IF ren THEN "ibase" ELSE "Base"
             iTop == IF ren THEN "itop" ELSE "Top"
@@ -88,8 +89,11 @@ PickMaps ==
             tEntry == CASE existing = "none" -> {}
                         [] existing = "plain" -> {Method(<<it, "oldName">>, isig2, <<>>, <<>>)}
                         [] existing = "rich" -> {Method(<<it, "">>, isig2, <<"delegate doc">>, MapOf({Param(0, <<"", "arg">>, <<"pd">>)}))}
-            subKids == MapOf((IF where = "sub" THEN {brEntry("namedInSub")} ELSE {}) \cup tEntry \cup {Method(<<"other", "otherNamed">>, "()V", <<"keep">>, <<>>)})
-            baseKids == MapOf(IF where \in {"sub", "base"} THEN {brEntry("namedInBase")} ELSE {})
+            \* "shadow": Sub lists the bridge without a target name (an entry that only carries a parameter name) while Base names
+            \* it: an entry without a name names nothing, the bridge's name still comes through inheritance (seed C15-9)
+            brNameless == Method(<<ibr, "">>, isig1, <<>>, MapOf({Param(0, <<"", "barg">>, <<>>)}))
+            subKids == MapOf((IF where = "sub" THEN {brEntry("namedInSub")} ELSE IF where = "shadow" THEN {brNameless} ELSE {}) \cup tEntry \cup {Method(<<"other", "otherNamed">>, "()V", <<"keep">>, <<>>)})
+            baseKids == MapOf(IF where \in {"sub", "base", "shadow"} THEN {brEntry("namedInBase")} ELSE {})
         IN /\ cal' = calM
            /\ named' = Root(NSN, <<"root">>, MapOf(
                         (IF hasclass THEN {Class(<<iSub, "n/Sub">>, <<"cd">>, subKids)} ELSE {})
